@@ -191,6 +191,12 @@ def _only_called_from(idx, eff, fn, allowed, depth=0) -> bool:
                 tg, _ = resolve_call(idx, g, te, c)
                 if tg is None or fn in tg:
                     callers.add(g)
+            # a reference that is not a call (bound method stored in a dispatch table, passed to map/partial ...):
+            # whoever holds the reference may call it
+            elif isinstance(c, ast.Attribute) and c.attr == fn.name and isinstance(c.ctx, ast.Load) and fn.name.startswith("_"):
+                callers.add(g)
+            elif isinstance(c, ast.Name) and c.id == fn.name and isinstance(c.ctx, ast.Load) and fn.cls is None and g.module is fn.module:
+                callers.add(g)
     if not callers:
         return False
     for g in callers:
